@@ -136,7 +136,7 @@ func VerifC11_WrongTypes() {
 // VerifC11_Cycles: include and layout graphs with every cycle shape return an
 // error instead of exhausting the stack, and slots that refer to themselves end.
 func VerifC11_Cycles() {
-	shape := zzChoice("shape", 7)
+	shape := zzChoice("shape", 10)
 	files := map[string]string{}
 	page := "a.vuego"
 	wantErr := true
@@ -169,6 +169,15 @@ func VerifC11_Cycles() {
 			return
 		}
 		return
+	case 7: // cycle in which every lap passes through supplied slot content
+		files["a.vuego"] = `<template include="card.vuego"><template include="a.vuego"></template></template>`
+		files["card.vuego"] = `<div class="card"><slot></slot></div>`
+	case 8: // cycle through a slot's fallback content
+		files["a.vuego"] = `<div><template include="box.vuego"></template></div>`
+		files["box.vuego"] = `<section><slot><template include="box.vuego"></template></slot></section>`
+	case 9: // cycle through a named, scoped slot inside a loop
+		files["a.vuego"] = `<template include="list.vuego"><template #row="r"><template include="a.vuego"></template></template></template>`
+		files["list.vuego"] = `<ul><li v-for="i in xs"><slot name="row" :i="i"></slot></li></ul>`
 	case 6: // deep but finite nesting
 		files["a.vuego"] = `<div><template include="b.vuego"></template></div>`
 		files["b.vuego"] = `<p><template include="c.vuego"></template></p>`
